@@ -161,6 +161,11 @@ func (cropOW *CropOverwrite) OverwriteCropParameters(cropFile string, g *GlobalV
 		}
 
 	}
+	// keep the total temperature sum consistent with the (possibly overwritten) stage sums
+	l.tendsum = 0
+	for i := 0; i < l.NRENTW; i++ {
+		l.tendsum = l.tendsum + g.TSUM[i]
+	}
 	// overwrite partitioning parameters
 	for key, parts := range cropOW.PartitioningParameters {
 		if key == "PRO" {
